@@ -10,8 +10,8 @@
    well formed and kept as they are by storage). *)
 From Coq Require Import List ZArith NArith Bool.
 From TF Require Import Base Query Index DB Spec proofs.IndexDefs proofs.IndexP proofs.RepP proofs.DBReadP proofs.DBRemoveP
-     proofs.DBStepP proofs.DBRunP proofs.DBSpecP proofs.GetterP proofs.RefineP QueryObj SearchSem proofs.SearchGenP InsertSem proofs.InsertGenP.
-From TF Require gen.SearchGen gen.InsertGen.
+     proofs.DBStepP proofs.DBRunP proofs.DBSpecP proofs.GetterP proofs.RefineP QueryObj SearchSem proofs.SearchGenP InsertSem proofs.InsertGenP IndexSem proofs.IndexGenP.
+From TF Require gen.SearchGen gen.InsertGen gen.IndexGen.
 Import ListNotations.
 
 Theorem C06_reachable : forall E C norm, (forall p, wf_point p -> wf_point (norm p)) ->
@@ -72,6 +72,51 @@ Theorem C06_source_insert_index_step : forall auto ix p,
   else if ix_valid ix then ix_invalidate ix else ix.
 Proof. exact gen_index_step_eq. Qed.
 
+(* the MAINTENANCE of the index as tinyflux/index.py defines it now - __init__, _reset, invalidate, the _insert_ methods, insert, build, the _remove_
+   methods, remove, the _update_ methods, update, COMPILED from the source on every run into state-passing functions over the attributes of the object
+   (gen/IndexGen.v; dicts as insertion-ordered association lists, the tag map a dict of dicts as in the source) - is the model's maintenance through
+   the abstraction IndexSem.abs: equal attribute by attribute, the tag map up to the order of its keys (ix_eqv), which `Rep` does not see.  Hence the
+   object the source maintains describes the stored points after every build, in-order insert, removal with renumbering, and reset: incremental
+   maintenance never drifts from a rebuild (C06_valid_is_rebuilt_search / _getters apply to any index that satisfies Rep).  gwf = the keys of every dict
+   are pairwise distinct (true of any Python dict; an invariant of every translated method). *)
+Theorem C06_source_index_reset_is_the_model : forall g, abs (IndexGen.gen__reset g) = ix_reset (abs g).
+Proof. exact gen_reset_eq. Qed.
+Theorem C06_source_index_invalidate_is_the_model : forall g, abs (IndexGen.gen_invalidate g) = ix_invalidate (abs g).
+Proof. exact gen_invalidate_eq. Qed.
+Theorem C06_source_index_init_is_the_model : forall g v, abs (IndexGen.gen___init__ g v) = ix_empty_valid v.
+Proof. exact gen_init_eq. Qed.
+Theorem C06_source_index_insert_is_the_model : forall g p, gwf g -> gwf (IndexGen.gen_insert g [p]) /\ ix_eqv (abs (IndexGen.gen_insert g [p])) (ix_insert (abs g) p).
+Proof. exact gen_insert_one. Qed.
+Theorem C06_source_index_build_is_the_model : forall g pts, gwf (IndexGen.gen_build g pts) /\ ix_eqv (abs (IndexGen.gen_build g pts)) (ix_build pts).
+Proof. exact gen_build_eqv. Qed.
+Theorem C06_source_index_remove_is_the_model : forall g r, gwf g ->
+  gwf (IndexGen.gen_remove g r) /\ abs (IndexGen.gen_remove g r) = ix_remove (abs g) (fun i => mem i r) (length r).
+Proof. exact gen_remove_eq. Qed.
+Theorem C06_source_index_update_is_the_model : forall g u, gwf g ->
+  gwf (IndexGen.gen_update g u) /\ abs (IndexGen.gen_update g u) = ix_renumber (abs g) (newpos u).
+Proof. exact gen_update_eq. Qed.
+Theorem C06_source_index_remove_update_is_the_model : forall g r u f, gwf g -> (forall k, mem k r = false -> newpos u k = f k) ->
+  gwf (IndexGen.gen_update (IndexGen.gen_remove g r) u) /\
+  abs (IndexGen.gen_update (IndexGen.gen_remove g r) u) = ix_renumber (ix_remove (abs g) (fun i => mem i r) (length r)) f.
+Proof. exact gen_remove_update_eq. Qed.
+Theorem C06_source_index_eqv_keeps_rep : forall a b pts, ix_eqv a b -> Rep a pts -> Rep b pts.
+Proof. exact Rep_eqv. Qed.
+Theorem C06_source_index_build : forall g pts, wf_points pts ->
+  gwf (IndexGen.gen_build g pts) /\ Rep (abs (IndexGen.gen_build g pts)) pts /\ ix_valid (abs (IndexGen.gen_build g pts)) = true.
+Proof. exact source_build_rep. Qed.
+Theorem C06_source_index_insert : forall g pts p, gwf g -> Rep (abs g) pts -> wf_point p -> (forall t, In t (_timestamps g) -> (t <= p_time p)%Z) ->
+  gwf (IndexGen.gen_insert g [p]) /\ Rep (abs (IndexGen.gen_insert g [p])) (pts ++ [p]) /\ ix_valid (abs (IndexGen.gen_insert g [p])) = ix_valid (abs g).
+Proof. exact source_insert_rep. Qed.
+Theorem C06_source_index_remove : forall g pts r u, gwf g -> Rep (abs g) pts -> length r = length (filter (fun i => mem i r) (seq 0 (length pts))) ->
+  (forall k, mem k r = false -> newpos u k = renum (fun i => mem i r) k) ->
+  gwf (IndexGen.gen_update (IndexGen.gen_remove g r) u) /\ Rep (abs (IndexGen.gen_update (IndexGen.gen_remove g r) u)) (keep_rows (fun i => mem i r) pts) /\
+  ix_valid (abs (IndexGen.gen_update (IndexGen.gen_remove g r) u)) = ix_valid (abs g).
+Proof. exact source_remove_rep. Qed.
+Theorem C06_source_index_reset : forall g, gwf (IndexGen.gen__reset g) /\ Rep (abs (IndexGen.gen__reset g)) [] /\ ix_valid (abs (IndexGen.gen__reset g)) = true.
+Proof. exact source_reset_rep. Qed.
+Theorem C06_source_index_init : forall g v, gwf (IndexGen.gen___init__ g v) /\ Rep (abs (IndexGen.gen___init__ g v)) [] /\ ix_valid (abs (IndexGen.gen___init__ g v)) = v.
+Proof. exact source_init_rep. Qed.
+
 Print Assumptions C06_reachable.
 Print Assumptions C06_step.
 Print Assumptions C06_refines_list_spec.
@@ -85,3 +130,17 @@ Print Assumptions C06_reset.
 Print Assumptions C06_read_leaves_valid.
 Print Assumptions C06_source_insert_is_the_model.
 Print Assumptions C06_source_insert_index_step.
+Print Assumptions C06_source_index_reset_is_the_model.
+Print Assumptions C06_source_index_invalidate_is_the_model.
+Print Assumptions C06_source_index_init_is_the_model.
+Print Assumptions C06_source_index_insert_is_the_model.
+Print Assumptions C06_source_index_build_is_the_model.
+Print Assumptions C06_source_index_remove_is_the_model.
+Print Assumptions C06_source_index_update_is_the_model.
+Print Assumptions C06_source_index_remove_update_is_the_model.
+Print Assumptions C06_source_index_eqv_keeps_rep.
+Print Assumptions C06_source_index_build.
+Print Assumptions C06_source_index_insert.
+Print Assumptions C06_source_index_remove.
+Print Assumptions C06_source_index_reset.
+Print Assumptions C06_source_index_init.
